@@ -729,6 +729,26 @@ pub fn choose_shader<'a, 'b, 'c>(ti: &Transform, src: &'b Source<'c>, alpha: f32
         }
     };
 
+    #[cfg(raqote_verif)]
+    crate::verif::hit(crate::verif::SHADER_BASE + match shader_storage {
+        ShaderStorage::None => unreachable!(),
+        ShaderStorage::Solid(_) => 0,
+        ShaderStorage::ImagePadAlpha(_) => 1,
+        ShaderStorage::ImageRepeatAlpha(_) => 2,
+        ShaderStorage::TransformedNearestPadImageAlpha(_) => 3,
+        ShaderStorage::TransformedNearestRepeatImageAlpha(_) => 4,
+        ShaderStorage::TransformedPadImageAlpha(_) => 5,
+        ShaderStorage::TransformedRepeatImageAlpha(_) => 6,
+        ShaderStorage::TransformedPadImage(_) => 7,
+        ShaderStorage::TransformedRepeatImage(_) => 8,
+        ShaderStorage::TransformedNearestPadImage(_) => 9,
+        ShaderStorage::TransformedNearestRepeatImage(_) => 10,
+        ShaderStorage::RadialGradient(_) => 11,
+        ShaderStorage::TwoCircleRadialGradient(_) => 12,
+        ShaderStorage::LinearGradient(_) => 13,
+        ShaderStorage::SweepGradient(_) => 14,
+    });
+
     match shader_storage {
         ShaderStorage::None => unreachable!(),
         ShaderStorage::Solid(s) => s,
